@@ -580,6 +580,7 @@ pub struct World {
     pub svc: Vec<Spec>,
     pub ended: bool,
     pub default_is_spawn: bool,
+    pub allow_respent: bool,
     pub last_default: Option<usize>,
     pub next_jid: usize,
     pub started_count: HashMap<usize, usize>,
